@@ -373,7 +373,8 @@ impl<'a> G<'a>
     fn res(&mut self) -> R { if self.r.chance(65) { R::R } else { R::S } }
     /// for triggers and explicit trigger calls: the removable resource takes part too
     fn res3(&mut self) -> R { if self.r.chance(self.c.pct_res_t) { R::T } else { self.res() } }
-    fn val(&mut self) -> u8 { self.r.below(3) as u8 }
+    /// low two bits: the value that equality looks at; the rest: a tag equality ignores
+    fn val(&mut self) -> u8 { (self.r.below(3) + 4 * self.r.below(3)) as u8 }
 
     fn any_trig(&mut self) -> Trig
     {
@@ -491,7 +492,7 @@ impl<'a> G<'a>
             {
                 // anywhere: inside trees, batches and exclusive bodies (collections are observed, so no placement rule is needed)
                 let k = self.r.below(4) as u8;
-                match self.r.below(10) { 0 | 1 => WOp::SigPrepare(k, s), 2 | 3 => WOp::SigClone(k), 4 => WOp::SigMoveInto(k, s), _ => WOp::SigDrop(k) }
+                match self.r.below(10) { 0 | 1 => WOp::SigPrepare(k, s), 2 | 3 => WOp::SigClone(k), 4 => WOp::SigMoveInto(k, s), 5 => WOp::SigDropUnwind(k), _ => WOp::SigDrop(k) }
             }
             x if x == D::Acc as usize =>
             {
@@ -747,7 +748,7 @@ pub fn generate(seed: u64, base: &Cfg) -> Program
                 else
                 {
                     sig_count[s] -= 1;
-                    steps.push(Step::Direct(WOp::SigDrop(s as u8)));
+                    steps.push(Step::Direct(if g.r.chance(15) { WOp::SigDropUnwind(s as u8) } else { WOp::SigDrop(s as u8) }));
                     if sig_count[s] == 0
                     {
                         // sometimes further signal ops (possibly bringing another signal to zero) come before the collection
